@@ -372,6 +372,31 @@ func c10BuildCases(run *core.Run) []C10Case {
 			cases = append(cases, C10Case{Kind: []string{"minify", "minify", "minify", "bytes", "string"}[i%5], MT: mt, Cfg: i % 6, Input: b, Label: fmt.Sprintf("random#%d", i)})
 		}
 	}
+	// 1b. every prefix of small hostile inputs (escapes, line continuations and percent escapes cut in the middle),
+	// alone and embedded where the helper functions are reached from
+	hostile := map[string][]string{
+		"text/css": {"a{content:\"x\\\ny\\\rz\\\r\nw\";b:url(data:,a%2f%41%)}", "a{b:url('data:image/gif,GIF89a%0A%');c:'q\\\r", "@import \"a\\\nb\\\r\";a{b:c\\\r}"},
+		"text/html": {"<style>a{content:\"x\\\ny\\\r\"}</style><p style=\"content:'a\\\n\\\r\">", "<a href=\"data:text/plain,a%2f%4\">x</a>"},
+		"application/javascript": {"x=\"a\\\nb\\\r\";y=`c\\\r${1}\\\r`;z='\\u{41}\\x4"},
+		"image/svg+xml": {"<svg><path d=\"M1e1 2e-1L.5.5z\" style=\"a:'b\\\n\\\r\"/></svg>"},
+		"text/xml": {"<a b=\"&#1\">&#x1;&am</a>"},
+		"application/json": {"{\"a\":\"\\u00\",\"b\":1.5e-}"},
+	}
+	for _, mt := range sixTypes {
+		for hi, h := range hostile[mt] {
+			for cut := 0; cut <= len(h); cut++ {
+				cases = append(cases, C10Case{Kind: []string{"minify", "bytes"}[cut%2], MT: mt, Cfg: cut % 6, Input: []byte(h[:cut]), Label: fmt.Sprintf("prefix(hostile#%d,%d)", hi, cut)})
+			}
+		}
+	}
+	for ui, u := range []string{"data:image/gif,GIF89a%0A%41%", "data:,a%2f%", "data:text/plain;charset=utf-8;base64,aGk=%", "data:;base64,aGk%3D"} {
+		for cut := 5; cut <= len(u); cut++ {
+			pre := u[:cut]
+			cases = append(cases, C10Case{Kind: "DataURI", Cfg: cut % 6, Input: []byte(pre), Label: fmt.Sprintf("prefix(uri#%d,%d)", ui, cut)})
+			cases = append(cases, C10Case{Kind: "minify", MT: "text/css", Cfg: cut % 6, Input: []byte("a{b:url(" + pre + ")}c{d:url(\"" + pre + "\")}"), Label: fmt.Sprintf("css-prefix(uri#%d,%d)", ui, cut)})
+			cases = append(cases, C10Case{Kind: "minify", MT: "text/html", Cfg: cut % 6, Input: []byte("<img src=\"" + pre + "\"><a href='" + pre + "'>x</a>"), Label: fmt.Sprintf("html-prefix(uri#%d,%d)", ui, cut)})
+		}
+	}
 	// 2. helpers on hostile input
 	nh := run.N(2000, 60000)
 	for i := 0; i < nh; i++ {
